@@ -170,7 +170,8 @@ def run(tier="quick", seed=0, arg=None):
     group_pairs += [(x, y) for x in vp for y in vp]
     # a python_version literal longer than the variable's own X.Y (`python_version >= "3.8.1"` selects 3.9 and later, `== "3.8.1"` nothing) against
     # python_full_version atoms around it: the cross-variable merge must not read the literal as a full version
-    longp = [(t, parse_marker(t)) for t in [f'python_version {op} "{v}"' for v in ("3.8.1", "3.8.0.0") for op in ("==", "!=", "<", "<=", ">", ">=", "~=")]]
+    longp = [(t, parse_marker(t)) for t in [f'python_version {op} "{v}"' for v in ("3.8.1", "3.8.0.0") for op in ("==", "!=", "<", "<=", ">", ">=", "~=")] +
+             ['python_version == "3.8.1.*"', 'python_version != "3.8.1.*"']]
     fullp = [(t, parse_marker(t)) for t in [f'python_full_version {op} "{v}"' for v in ("3.8.5", "3.8.1", "3.8.0") for op in ("==", "!=", "<", ">=")]]
     group_pairs += [(x, y) for x in longp for y in fullp] + [(y, x) for x in longp[:4] for y in fullp[:4]]
     W = [(t, m) for t, m in pool if t in set(WITNESS_TEXTS)]
